@@ -2867,6 +2867,15 @@ func (te *TemplateEngine) createImageParagraph(imageData *TemplateImageData, doc
 			Position:  ImagePositionInline,
 			Alignment: AlignCenter,
 		}
+	} else {
+		// 使用调用者配置的副本：下面的替代文字和标题会写入图片的配置，
+		// 不能写回模板数据里的配置对象（渲染不得修改数据）
+		configCopy := *config
+		if config.Size != nil {
+			sizeCopy := *config.Size
+			configCopy.Size = &sizeCopy
+		}
+		config = &configCopy
 	}
 
 	// 添加图片到文档
